@@ -160,6 +160,7 @@ type builder struct {
 	opts    Options
 	cache   map[uint64][]*ProofNode
 	onStack map[uint64]bool
+	cuts    int               // number of cycle cuts so far
 	ruleIDs map[string]string // rule.String() -> rule content ID
 }
 
@@ -172,10 +173,12 @@ func (b *builder) build(goal ast.Atom, depth int) []*ProofNode {
 		return cached
 	}
 	if b.onStack[h] {
+		b.cuts++
 		return nil
 	}
 	b.onStack[h] = true
 	defer delete(b.onStack, h)
+	cutsBefore := b.cuts
 
 	var proofs []*ProofNode
 	events := b.rec.EventsFor(goal)
@@ -198,7 +201,11 @@ func (b *builder) build(goal ast.Atom, depth int) []*ProofNode {
 		}
 		proofs = append(proofs, p)
 	}
-	b.cache[h] = proofs
+	// A proof that is partial only because a cycle was cut against a goal still
+	// on the stack must not be reused where that goal is not on the stack.
+	if b.cuts == cutsBefore {
+		b.cache[h] = proofs
+	}
 	return proofs
 }
 
